@@ -50,6 +50,17 @@ LocalK(C, k) == k * NSeg(C) - SegOf(C, k) * D                 \* in 0..D
 SegPts(C, s) == <<C[3 * s + 1], C[3 * s + 2], C[3 * s + 3], C[3 * s + 4]>>
 SplineNum(C, k) == IF k <= 0 THEN C[1] * D * D * D ELSE IF k >= D THEN C[Len(C)] * D * D * D
                    ELSE Bern(SegPts(C, SegOf(C, k)), LocalK(C, k))
+\* control points of the spline through the rays (P[i], V[i]): each ray contributes its origin with a
+\* handle V[i] behind and ahead of it (the first ray only ahead, the last only behind)
+RaysCtrl(P, V) ==
+  LET n == Len(P)
+      blk(i) == IF i = 1 THEN <<P[1], P[1] + V[1]>>
+                ELSE IF i = n THEN <<P[n] - V[n], P[n]>>
+                ELSE <<P[i] - V[i], P[i], P[i] + V[i]>>
+      RECURSIVE cat(_)
+      cat(i) == IF i > n THEN <<>> ELSE blk(i) \o cat(i + 1)
+  IN cat(1)
+
 \* the spline's tangent is the tangent of the cubic of the segment containing t, at the local
 \* parameter (not rescaled by the segment count); t is clamped to [0, 1]
 SplineDeriv(C, k) == IF k <= 0 THEN Deriv(SegPts(C, 0), 0)
@@ -82,6 +93,7 @@ CloseTo(obs, num, den, tol) == Abs(obs * (den \div SC) - num) <= tol * (den \div
 \*                  observed eval, fast_eval (scaled SC), tangent (scaled SC); e.end = 1 if both evaluators
 \*                  returned the end control point bit-exactly (judged for k <= 0 or k >= D)
 \*        "spline": C (per coordinate), kk, eval per coordinate, end flag, stan = tangent per coordinate
+\*        "rays":   P, V (per coordinate: ray origins and directions), kk, eval / tangent of from_rays(..) as for "spline"
 \*        "flat":   C (per coordinate), maxdep, answers, errs (the vectors handed to halt, scaled SC, per call),
 \*                  n (number of output points), first / last (bit-exact flags), out (points, scaled SC; only
 \*                  for pieces at lattice parameters)
@@ -104,6 +116,15 @@ Allowed(e) ==
               /\ IF e.kk <= 0 \/ e.kk >= D THEN e.end = 1
                  ELSE CloseTo(e.ev[c], SplineNum(C, e.kk), D * D * D, tol)
               /\ CloseTo(e.stan[c], SplineDeriv(C, e.kk), D * D, 3 * Tol(MaxAbsP(C)))
+    [] e.op = "rays" ->
+         \* from_rays: fewer than two rays cannot make a curve (panic); otherwise the spline over RaysCtrl
+         IF Len(e.P[1]) < 2 THEN e.panic = 1
+         ELSE /\ e.panic = 0
+              /\ \A c \in 1..Len(e.P) :
+                   LET C == RaysCtrl(e.P[c], e.V[c])  tol == Tol(MaxAbsP(C)) * NSeg(C) IN
+                   /\ IF e.kk <= 0 \/ e.kk >= D THEN e.end = 1
+                      ELSE CloseTo(e.ev[c], SplineNum(C, e.kk), D * D * D, tol)
+                   /\ CloseTo(e.stan[c], SplineDeriv(C, e.kk), D * D, 3 * Tol(MaxAbsP(C)))
     [] e.op = "flat" ->
          LET f == Flatten(e.maxdep, e.answers)  unit == 2 ^ (e.maxdep - 6) IN
          /\ e.panic = 0
